@@ -703,12 +703,25 @@ def run_arith(job, R):
                                     {'amount': repr(a), 'pct': repr(p), 'cap': repr(cap)}, kind))
                     continue
                 R.classes.add(('rake', kind, repr(p), repr(cap), rk == 0))
+                want = a * p
+                if kind == 'int':
+                    want = round(want)
+                want = min(want, cap)
+                if not close(rk, want) if kind != 'int' else rk != want:
+                    R.viol.append(V('rake-value', f'rake({a!r}, percentage={p!r}, cap={cap!r}) takes {rk!r}, documented min(amount x percentage'
+                                    f'{" rounded to whole chips" if kind == "int" else ""}, cap) = {want!r}',
+                                    {'amount': repr(a), 'pct': repr(p), 'cap': repr(cap)}, kind))
                 if not close(rk + un, a):
                     R.viol.append(V('rake-sum', f'rake({a!r}, percentage={p!r}, cap={cap!r}) = ({rk!r}, {un!r}) adds up to {rk + un!r}',
                                     {'amount': repr(a), 'pct': repr(p), 'cap': repr(cap)}, kind))
                 if rk < 0 or un < -1e-9 or (cap != caps[0] and rk > cap):
                     R.viol.append(V('rake-range', f'rake({a!r}, percentage={p!r}, cap={cap!r}) = ({rk!r}, {un!r})',
                                     {'amount': repr(a), 'pct': repr(p), 'cap': repr(cap)}, kind))
+    for amt in range(0, 61):
+        R.evals += 1
+        if tuple(rake(conv(amt))) != (0, conv(amt)):
+            R.viol.append(V('rake-default', f'rake({conv(amt)!r}) with default parameters = {rake(conv(amt))!r}, documented: nothing is raked',
+                            {'amount': repr(conv(amt))}, kind))
     for p in (-0.1, 1.5):
         R.evals += 1
         try:
